@@ -396,7 +396,7 @@ RULE_ADDENDA = {
     'C05': "Also: 1 in 4 histories start from a session positioned at the identifier wrap; optional restart at the end "
            "(adoption, continuation, resend order and DUP of the next process). Behind the recording Persistence double sits, per case, its own map (5 in 8), the library's in-memory map (2 in 8) or mqtt.FileSystem on a scratch directory (1 in 8). One case in five runs on a session made the way VolatileSession makes it (the library's map, no checksum layer). brokerSend (inbound traffic). CleanSession is requested in 1 of 3 histories (never by the process which adopts the session at the end). TestC05NoPauseTimeout: the Config default (no PauseTimeout, no write deadlines), pipe-like connections in 3 of 4 cases, persisted publishes without payload cut right behind the packet, reconnect: same order and DUP rules.",
     'C06': "Also (full-size read buffer only): 1 in 400 messages has a remaining length of 2,097,151, 2,097,152 or 2,097,153 bytes (three-byte to four-byte length). In 1 of 4 cases an earlier connection came first, which delivered 1-3 packets with a body and then failed inside ReadSlices (nothing of it may leak into the next connection).",
-    'C07': "Also: storeFault(S|L|D) on the inbound path. Same BigMessage skipping and bigSkippedThenLoss as in C04. Behind the recording Persistence double sits, per case, its own map (5 in 8), the library's in-memory map (2 in 8) or mqtt.FileSystem on a scratch directory (1 in 8). One ending in five: Disconnect from another goroutine while the application holds the last return.",
+    'C07': "At the end of a drained case every exactly-once message which the broker completed must have been returned by ReadSlices (a message swallowed as a duplicate of a finished cycle is acknowledged without having been returned). Also: storeFault(S|L|D) on the inbound path. Same BigMessage skipping and bigSkippedThenLoss as in C04. Behind the recording Persistence double sits, per case, its own map (5 in 8), the library's in-memory map (2 in 8) or mqtt.FileSystem on a scratch directory (1 in 8). One ending in five: Disconnect from another goroutine while the application holds the last return.",
     'C08': "Also: resendFault (connection lost; a write fault 0-90 bytes into the retransmission on the next connection, of kind "
            "timeout, timeout-with-progress or reset). TestC08Loopback: a real client over TCP on 127.0.0.1 (net.Buffers through "
            "writev, the kernel cuts the writes): 1-4 goroutines with 1-5 requests each of {pub0, pub1 with payloads of 0, 1, 100, "
